@@ -1,5 +1,5 @@
 (* C20 — property theorems only. *)
-From C20 Require Import Model Spec Proofs.
+From C20 Require Import Model Spec ProofsClear Proofs ProofsStash.
 Open Scope N_scope.
 
 (* (1) the history file format round-trips every list of encodable forms (multi-line forms intact) *)
@@ -7,8 +7,8 @@ Theorem C20_file_roundtrip : forall fs, Forall (fun f => encodable f = true) fs 
 Proof. exact load_encode. Qed.
 Print Assumptions C20_file_roundtrip.
 
-(* (2) restart loads exactly what the user did: for EVERY history of Add / Clear / SetLimit / restart
-   over encodable (or blank) forms, from any directory whose history file encodes the loaded list
+(* (2) restart loads exactly what the user did: for EVERY history of Add / Clear(start, end) with ANY range /
+   SetLimit / restart over encodable (or blank) forms, from any directory whose history file encodes the loaded list
    (whatever is left in history.tmp), memory and a fresh session's Load both equal the specification *)
 Theorem C20_restart_exact : forall ops h d, Inv h d -> Forall op_ok ops ->
   let '((h', d'), _) := run (h, d) ops in
@@ -16,7 +16,8 @@ Theorem C20_restart_exact : forall ops h d, Inv h d -> Forall op_ok ops ->
 Proof. exact run_spec. Qed.
 Print Assumptions C20_restart_exact.
 
-(* (3) a process death before ANY primitive file-system step of ANY operation of ANY history leaves a
+(* (3) a process death before ANY primitive file-system step of ANY operation (Add with or without compaction,
+   Clear of any range - rewritten through history.tmp since repo fix C20-2) of ANY history leaves a
    directory that a fresh session loads as the remembered list before or after one of the operations:
    never torn, duplicated or resurrected *)
 Theorem C20_crash_consistent : forall ops h d K, Inv h d -> Forall op_ok ops ->
@@ -30,8 +31,12 @@ Theorem C20_crash_one_operation : forall h d o k, Inv h d -> op_ok o ->
 Proof. exact crash_one_op. Qed.
 Print Assumptions C20_crash_one_operation.
 
-(* (4) none duplicated, bounded by the configured limit *)
-Theorem C20_no_adjacent_duplicates : forall st o, no_adj_dup (fst st) -> no_adj_dup (fst (spec_step st o)).
+(* (4) none duplicated, bounded by the configured limit.  Add never records a form equal to the most recent
+   one; SetLimit, restart and a Clear whose range reaches the most recent or the oldest entry keep the list free
+   of adjacent equal entries.  (A Clear strictly inside the list can bring two equal entries together - see
+   Proofs.clear_middle_joins; code and specification agree on it and it survives a restart unchanged.) *)
+Theorem C20_no_adjacent_duplicates : forall st o,
+  no_adj_dup (fst st) -> clear_at_end (fst st) o -> no_adj_dup (fst (spec_step st o)).
 Proof. exact spec_no_adjacent_duplicates. Qed.
 Print Assumptions C20_no_adjacent_duplicates.
 
@@ -51,13 +56,117 @@ Theorem C20_tab_in_form_refuted :
 Proof. exact tab_in_form_refuted. Qed.
 Print Assumptions C20_tab_in_form_refuted.
 
-(* (6) the hypotheses are met by a history with appends, a multi-line form, a compaction, a clear,
-   a limit change and restarts; it has 19 primitive steps, i.e. 20 crash points *)
+(* (6) the hypotheses are met by a history with appends, a multi-line form, a compaction, a clear of an inner
+   range and one of everything, a limit change and restarts; it has 24 primitive steps, i.e. 25 crash points *)
 Theorem C20_nonvacuous :
   Inv (fst start0) (snd start0) /\ Forall op_ok ex_ops /\
-  List.length (snd (run start0 ex_ops)) = 19%nat /\ fst (spec_run ([], 10%Z) ex_ops) = [F 5].
+  List.length (snd (run start0 ex_ops)) = 24%nat /\ fst (spec_run ([], 10%Z) ex_ops) = [F 5].
 Proof. exact example_ok. Qed.
 Print Assumptions C20_nonvacuous.
+
+(* (7) Clear(start, end): the slice arithmetic of Stash.clear (after repo fix C20-1; shared by History and
+   Stash, reached by clear-history / clear-stash with :start and :end) removes, for EVERY start and end, exactly the
+   entries whose distance from the most recent one lies in start..end (negative end: up to the oldest) and keeps
+   the others in order; the code before the fix did not (known finding C20-partial-clear-scrambles, now fixed) *)
+Theorem C20_clear_range_exact : forall (fs : list form) s e, clear_range fs s e = spec_clear fs s e.
+Proof. exact (@clear_range_spec form). Qed.
+Print Assumptions C20_clear_range_exact.
+Theorem C20_partial_clear_refuted :
+  clear_range_old L5 1 2 = [[[99]]; [[98]]; [[99]]] /\ spec_clear L5 1 2 = [[[97]]; [[98]]; [[101]]] /\
+  clear_range L5 1 2 = [[[97]]; [[98]]; [[101]]] /\ clear_range_old L5 1 1 = [[[98]]; [[98]]; []; []].
+Proof. exact partial_clear_old_refuted. Qed.
+Print Assumptions C20_partial_clear_refuted.
+
+(* (8) the stash.  For EVERY reader (the model is parametric in what slip.Read says about a text: complete /
+   ends inside a list or string / error) and EVERY history of Stash.Add / Clear(start, end) / use-stash / restart
+   over forms the stash file can carry (`sencodable`: no TAB or NL in a line, the first line not empty, not blank, the reader accepts the
+   form after its last line and not before), from any directory whose stash file holds the loaded forms in either
+   format (whatever is left in the temporary file): the stash in memory and what a fresh LoadExpanded reads both
+   equal the specification - the forms in order, a repetition of the most recent form not recorded *)
+Theorem C20_stash_restart_exact : forall rd ops fs d, SInv rd fs d -> Forall (sop_ok rd) ops ->
+  let '((fs', d'), _) := srun rd (fs, d) ops in
+  SInv rd fs' d' /\ fs' = sspec_run fs ops /\ sload rd d' = (fs', true).
+Proof. exact srun_spec. Qed.
+Print Assumptions C20_stash_restart_exact.
+
+(* the stash file in either format (Add: expanded, an empty line after each form; Clear: one TAB-joined line per
+   form; any mixture) loads as exactly the forms, multi-line forms intact *)
+Theorem C20_stash_file_roundtrip : forall rd l,
+  Forall (fun p => sencodable rd (snd p) = true) l -> loadx_bytes rd (enc_mixed l) = (map snd l, true).
+Proof. exact loadx_enc. Qed.
+Print Assumptions C20_stash_file_roundtrip.
+
+(* (9) a process death before ANY primitive file-system step (open, each write, rename; the creation of a missing
+   stash file by use-stash) of ANY operation of ANY stash history leaves a directory that a fresh LoadExpanded reads,
+   without a reader failure, as the stash before or after one of the operations *)
+Theorem C20_stash_crash_consistent : forall rd ops fs d K, SInv rd fs d -> Forall (sop_ok rd) ops ->
+  exists fs', In fs' (sspec_states fs ops) /\ sload rd (crash_dir d (snd (srun rd (fs, d) ops)) K) = (fs', true).
+Proof. exact scrash_any_point. Qed.
+Print Assumptions C20_stash_crash_consistent.
+Theorem C20_stash_crash_one_operation : forall rd fs d o k, SInv rd fs d -> sop_ok rd o ->
+  let '((fs', d'), xs) := sstep rd (fs, d) o in
+  sload rd (crash_dir d xs k) = (fs, true) \/ sload rd (crash_dir d xs k) = (fs', true).
+Proof. exact scrash_one_op. Qed.
+Print Assumptions C20_stash_crash_one_operation.
+
+(* before repo fix C20-2 Clear truncated the file and wrote the remaining forms in place: a death after the
+   truncation or between two writes left a file that loads as neither the list before nor the list after *)
+Theorem C20_clear_inplace_crash_refuted :
+  let fs := [F 1; F 2; F 3] in
+  let d := {| d_hist := Some (encode fs); d_tmp := None |} in
+  let keep := clear_range fs 0 0 in
+  keep = [F 1; F 2] /\
+  load (crash_dir d (rewrite_inplace keep) 1) = [] /\ load (crash_dir d (rewrite_inplace keep) 2) = [F 1] /\
+  fst (sload rd_paren (crash_dir d (rewrite_inplace keep) 1)) = [] /\
+  fst (sload rd_paren (crash_dir d (rewrite_inplace keep) 2)) = [F 1].
+Proof. exact clear_inplace_crash_refuted. Qed.
+Print Assumptions C20_clear_inplace_crash_refuted.
+
+(* Stash.Nth numbers the forms from the most recent one; outside the list it is the empty form *)
+Theorem C20_nth_most_recent : forall fs n,
+  nth_form fs n = if (0 <=? n)%Z then nth (Z.to_nat n) (rev fs) [] else [].
+Proof. exact nth_form_spec. Qed.
+Print Assumptions C20_nth_most_recent.
+
+(* an empty line inside a stashed form survives a restart; LoadExpanded before repo fix C20-4 dropped it *)
+Theorem C20_stash_empty_line_refuted :
+  let '((fs, d), _) := srun rd_paren sstart0 [SUse; SAdd SE] in
+  fs = [SE] /\ sencodable rd_paren SE = true /\ sload rd_paren d = ([SE], true) /\
+  match d_hist d with
+  | Some bs => loadx_lines_old rd_paren (file_lines bs) [] [] = ([[[40; 101]; [41]]], true)
+  | None => False
+  end.
+Proof. exact stash_empty_line_refuted. Qed.
+Print Assumptions C20_stash_empty_line_refuted.
+(* outside `sencodable` (known finding): an incomplete form swallows what is stashed after it *)
+Theorem C20_stash_incomplete_form_refuted :
+  let '((fs, d), _) := srun rd_paren sstart0 [SUse; SAdd SP; SAdd SA] in
+  fs = [SP; SA] /\ sload rd_paren d = ([], true).
+Proof. exact stash_incomplete_form_refuted. Qed.
+Print Assumptions C20_stash_incomplete_form_refuted.
+
+(* the stash hypotheses are met (with the parenthesis reader) by a history with use-stash on a missing file, single-
+   and multi-line forms, a string holding a parenthesis, a repetition, clears of an inner range, of the most recent
+   entry and of everything, and restarts: 22 primitive steps *)
+Theorem C20_stash_nonvacuous :
+  SInv rd_paren (fst sstart0) (snd sstart0) /\ Forall (sop_ok rd_paren) sex_ops /\
+  List.length (snd (srun rd_paren sstart0 sex_ops)) = 22%nat /\
+  sspec_run [] (firstn 12 sex_ops) = [SA; SD] /\ sspec_run [] (firstn 8 sex_ops) = [SA; SD].
+Proof. exact stash_example_ok. Qed.
+Print Assumptions C20_stash_nonvacuous.
+
+(* (10) the two open findings about the history file format cannot be repaired compatibly: whatever an encoder
+   writes, a History.Load that reads every existing file as it does now never returns a form with a TAB inside a line
+   or a first line beginning with white space *)
+Theorem C20_no_compatible_encoding : forall enc : list form -> list byte,
+  load_bytes (enc [F_lead]) <> [F_lead] /\ load_bytes (enc [F_tab]) <> [F_tab].
+Proof. exact no_compatible_encoding. Qed.
+Print Assumptions C20_no_compatible_encoding.
+Theorem C20_loaded_forms_shape : forall bs f, In f (load_bytes bs) ->
+  Forall (fun l => forallb (fun b => negb (N.eqb b TAB)) l = true) f /\
+  match f with l :: _ => starts_ok l = true | [] => False end.
+Proof. exact load_forms_shape. Qed.
+Print Assumptions C20_loaded_forms_shape.
 
 (* saved settings: for EVERY history of sessions (each a list of setq's of watched variables), a session starts
    with, for every variable, the value last set in any earlier session (or the default if it never was):
@@ -69,3 +178,24 @@ Theorem C20_settings_persist : forall sessions k,
   look (vals (m_start (fold_left m_session sessions m_init))) k = look (fold_left s_session sessions []) k.
 Proof. exact settings_persist. Qed.
 Print Assumptions C20_settings_persist.
+
+(* a death while config.lisp is updated (repo fix C20-3: the text goes to config.lisp.tmp, which is renamed over
+   config.lisp): for EVERY history of sessions, any settings made so far in the current one, whatever an earlier
+   death left in config.lisp.tmp and whichever step (open, write, rename) the process dies at, the next session
+   starts with every setting as before the interrupted change or every setting as after it *)
+Theorem C20_settings_crash_consistent : forall sessions ops k x t j,
+  let m := fold_left (fun m o => m_set m (fst o) (snd o)) ops (m_start (fold_left m_session sessions m_init)) in
+  let s := s_session (fold_left s_session sessions []) ops in
+  let d := ccrash {| c_cfg := Some (file m); c_tmp := t |} (update_atomic (file (m_set m k x))) j in
+  (forall k', look (cload d) k' = look s k') \/ (forall k', look (cload d) k' = look (upd s k x) k').
+Proof. exact settings_crash_consistent. Qed.
+Print Assumptions C20_settings_crash_consistent.
+
+(* before the fix os.WriteFile truncated config.lisp itself: a death before the write left it empty and the next
+   session started with the defaults *)
+Theorem C20_settings_crash_inplace_refuted :
+  let old := [(0%N, 5%Z)] in let new := [(1%N, 7%Z); (0%N, 5%Z)] in
+  let d := ccrash {| c_cfg := Some old; c_tmp := None |} (update_inplace new) 1 in
+  look (cload d) 0%N = None /\ look old 0%N = Some 5%Z /\ look new 0%N = Some 5%Z.
+Proof. exact settings_crash_inplace_refuted. Qed.
+Print Assumptions C20_settings_crash_inplace_refuted.
